@@ -355,19 +355,43 @@ Fixpoint last_def (log : list (name * defref)) (n : name) : option defref :=
   end.
 
 (* modules loaded successfully since the last completed link, oldest first *)
-Fixpoint pending_from (id : nat) (tr : list (op * output)) (acc : list nat) : list nat :=
+Fixpoint pending_from (id : nat) (tr : list (op * output)) (acc : list lmod) : list lmod :=
   match tr with
   | [] => acc
   | (o, out) :: r =>
       let id' := if is_load o then S id else id in
       match o, out with
-      | Load _, OOk => pending_from id' r (acc ++ [id])
+      | Load ds, OOk =>
+          match build ds with
+          | inl m => pending_from id' r (acc ++ [{| lid := id; lmd := m |}])
+          | inr _ => pending_from id' r acc
+          end
       | Link _, OLinked _ _ => pending_from id' r []
       | _, _ => pending_from id' r acc
       end
   end.
 
-Definition pending (tr : list (op * output)) : list nat := pending_from 0 tr [].
+Definition pending (tr : list (op * output)) : list lmod := pending_from 0 tr [].
+
+(* the redefinition permission in force after a trace *)
+Fixpoint redef_from (tr : list (op * output)) (acc : bool) : bool :=
+  match tr with
+  | [] => acc
+  | (SetRedef b, OOk) :: r => redef_from r b
+  | _ :: r => redef_from r acc
+  end.
+
+Definition redef_of (tr : list (op * output)) : bool := redef_from tr false.
+
+Definition loads_in (tr : list (op * output)) : nat := length (filter (fun x => is_load (fst x)) tr).
 
 Definition import_bindings (bs : list binding) : list (name * option defref) :=
   map (fun b => (snd (fst b), snd b)) (filter (fun b => ikind_eqb (fst (fst b)) KImport) bs).
+
+(* what the property demands an import of n to be bound to, given the log of definitions loaded
+   before the link step and the step's resolver *)
+Definition wanted (log : list (name * defref)) (r : resolver) (n : name) : option defref :=
+  match last_def log n with
+  | Some d => Some d
+  | None => match r n with Some a => Some (DExt a) | None => None end
+  end.
